@@ -218,7 +218,64 @@ pub fn run_one(cfg : &Config, seed : u64, k : u64, stats : &mut Stats) -> Vec<Fo
     }
     let mut gen = Gen::new(seed, g);
     let mut case = gen.case();
-    if epoch_mode
+    let fan_mode = epoch_mode && rng.chance(1, 2);
+    if fan_mode
+    {
+        // one rule with several targets, each a copy of its own leaf, plus dependents that copy one
+        // of them: sibling targets exchange contents through the cache when the leaves are edited
+        stats.inc("c18.fan_mode_histories");
+        let k = rng.range(3, 4);
+        let names = ["o1", "o2", "o3", "o4"];
+        let leaves : Vec<String> = (0..k).map(|i| format!("l{}", i + 1)).collect();
+        let mut rules = vec![SRule
+        {
+            targets : (0..k).map(|i| names[i].to_string()).collect(),
+            sources : leaves.clone(),
+            lines : (0..k).map(|i| Line::Emit{ target : names[i].to_string(), salt : "".to_string(), inputs : vec![leaves[i].clone()], exec : false }).collect(),
+        }];
+        let deps = rng.range(1, 2);
+        for d in 0..deps
+        {
+            let src = names[rng.below(k as u64) as usize].to_string();
+            let t = format!("f{}", d + 1);
+            rules.push(SRule{ targets : vec![t.clone()], sources : vec![src.clone()], lines : vec![Line::Emit{ target : t, salt : "".to_string(), inputs : vec![src], exec : false }] });
+        }
+        let pool : Vec<&[u8]> = vec![b"A", b"B", b"C"];
+        case.rules = rules.clone();
+        case.files = leaves.iter().map(|l| (l.clone(), rng.pick(&pool).to_vec())).collect();
+        case.files.push(("README".to_string(), b"bystander".to_vec()));
+        case.dirs = vec![];
+        case.rule_files = 1;
+        case.ops.clear();
+        let targets : Vec<String> = rules.iter().flat_map(|r| r.targets.clone()).collect();
+        let epochs = rng.range(3, if cfg.thorough { 7 } else { 5 });
+        // leaf values per epoch, so that an epoch can put *all* leaves back to an earlier state
+        let mut states : Vec<Vec<Vec<u8>>> = vec![case.files.iter().take(k).map(|(_, c)| c.clone()).collect()];
+        for e in 0..epochs
+        {
+            if e > 0
+            {
+                let mut now = states.last().unwrap().clone();
+                if e >= 2 && rng.chance(1, 3)
+                {
+                    now = states[rng.below((states.len() - 1) as u64) as usize].clone();
+                }
+                else
+                {
+                    for v in now.iter_mut() { if rng.chance(3, 5) { *v = rng.pick(&pool).to_vec(); } }
+                }
+                for (i, l) in leaves.iter().enumerate()
+                {
+                    if now[i] != states.last().unwrap()[i] { case.ops.push(Op::Write{ path : l.clone(), content : now[i].clone() }); }
+                }
+                states.push(now);
+                if rng.chance(1, 2) { case.ops.push(Op::Delete{ path : names[rng.below(k as u64) as usize].to_string() }); }
+                if rng.chance(1, 8) { case.ops.push(Op::Clean{ goal : Some(rng.pick(&targets).clone()), sched : SchedSpec::serial() }); }
+            }
+            case.ops.push(Op::Build{ goal : None, sched : SchedSpec{ strategy : if rng.chance(1, 2) { Strategy::Serial } else { Strategy::Reverse }, seed : 0 } });
+        }
+    }
+    else if epoch_mode
     {
         stats.inc("c18.epoch_mode_histories");
         let leaves = gen.leaf_names();
